@@ -66,6 +66,43 @@ Proof.
   destruct (Z.leb_spec (p_clear (getp (t_book t) (S j))) now); [discriminate|lia].
 Qed.
 
+(** in a consistent book every promise's clearance is no later than the start of EVERY later promised trip *)
+Lemma clearance_before_all_later_trips mx (b : book) k i :
+  Inv mx b -> (k < MaxPromises)%nat -> p_ts (getp b k) <> 0 -> (i < k)%nat ->
+  p_clear (getp b k) <= p_ts (getp b i).
+Proof.
+  intros [Hl Hwf Hsep Hadj Hst] Hk Hne Hi.
+  destruct k as [|k']; [lia|].
+  pose proof (Hadj k' Hk Hne) as H1.
+  destruct (Nat.eq_dec i k') as [->|Hn]; [exact H1|].
+  (* entry k' is not empty (an older one is not), and trips are ordered *)
+  assert (Hk'ne : p_ts (getp b k') <> 0).
+  { pose proof (Hsep k' (S k') ltac:(lia) Hk Hne) as Hs. destruct (Hwf (S k') Hk) as [[W _] _].
+    destruct (Hwf (S k') Hk) as [_ W2]. specialize (W2 Hne). lia. }
+  pose proof (Hsep i k' ltac:(lia) ltac:(lia) Hk'ne) as H2.
+  destruct (Hwf k' ltac:(lia)) as [_ W]. specialize (W Hk'ne). lia.
+Qed.
+
+(** ... so while the kept promise's entry is in the book the traveller is cleared from the start of ANY
+    later promised trip on *)
+Theorem later_promised_trip_not_grounded mx (t : traveller) k i now :
+  Inv mx (t_book t) -> (k < MaxPromises)%nat -> (i < k)%nat ->
+  p_ts (t_kept t) = p_ts (getp (t_book t) k) -> p_te (t_kept t) = p_te (getp (t_book t) k) ->
+  keqb N (p_dist (getp (t_book t) k)) (p_dist (t_kept t)) = true ->
+  p_ts (t_kept t) <> 0 -> p_clear (t_kept t) <> 0 -> 0 < p_clear (getp (t_book t) k) ->
+  p_ts (getp (t_book t) i) <= now ->
+  ~ grounded t now.
+Proof.
+  intros HI Hk Hi Ets Ete Hd Hne Hc0 Hc Hnow (_ & _ & Hg).
+  assert (Er : refreshed_clearance t = p_clear (getp (t_book t) k)).
+  { unfold refreshed_clearance. destruct (Z.eqb_spec (p_clear (t_kept t)) 0) as [E|_]; [contradiction|].
+    rewrite (match_promise_finds mx (t_book t) k (t_kept t) HI Hk); [reflexivity|rewrite <- Ets; exact Hne|exact Ets|exact Ete|exact Hd]. }
+  pose proof (clearance_before_all_later_trips mx (t_book t) k i HI Hk ltac:(rewrite <- Ets; exact Hne) Hi) as Hadj.
+  rewrite Er in Hg.
+  destruct (Z.ltb_spec 0 (p_clear (getp (t_book t) k))); [|lia].
+  destruct (Z.leb_spec (p_clear (getp (t_book t) k)) now); [discriminate|lia].
+Qed.
+
 (** a pending kept promise (clearance date not yet passed) is never dropped from the book by a new proposal *)
 Theorem pending_promise_not_dropped mx (b : book) ts te d tr now (pr : predictor N) pp j :
   1 <= mx -> 0 <= now -> te < tmax -> Inv mx b -> propose b ts te d tr now pr mx = inl pp ->
@@ -77,6 +114,22 @@ Proof.
   destruct (Nat.lt_ge_cases j i) as [Hlt|Hge]; [exists j; split; [exact Hj|apply Hlo, Hlt]|].
   destruct (Nat.eq_dec j (MaxPromises - 1)) as [->|Hn9]; [specialize (Hdrop Hne); lia|].
   exists (S j). split; [unfold MaxPromises in *; lia|]. apply Hhi; [exact Hge|unfold MaxPromises in *; lia].
+Qed.
+
+(** a new proposal keeps a pending promise in the book, and in the new book its clearance is again no
+    later than the start of every later promised trip - the newly promised one included *)
+Theorem plan_keeps_pending_promise_cleared_in_time mx (b : book) ts te d tr now (pr : predictor N) pp k :
+  1 <= mx -> 0 <= now -> te < tmax -> Inv mx b -> propose b ts te d tr now pr mx = inl pp ->
+  (k < MaxPromises)%nat -> p_ts (getp b k) <> 0 -> now <= p_clear (getp b k) ->
+  exists k', (k' < MaxPromises)%nat /\ core (getp (pp_entries pp) k') = core (getp b k) /\
+    forall i, (i < k')%nat -> p_clear (getp (pp_entries pp) k') <= p_ts (getp (pp_entries pp) i).
+Proof.
+  intros Hmx Hnow Hte HI Ep Hk Hne Hpend.
+  destruct (pending_promise_not_dropped mx b ts te d tr now pr pp k Hmx Hnow Hte HI Ep Hk Hne Hpend) as (k' & Hk' & Ec).
+  exists k'. split; [exact Hk'|]. split; [exact Ec|].
+  destruct (propose_spec mx b ts te d tr now pr pp Hmx Hnow Hte HI Ep) as (HI' & _ & _).
+  intros i Hi. apply (clearance_before_all_later_trips mx (pp_entries pp) k' i HI' Hk'); [|exact Hi].
+  unfold core in Ec. injection Ec as E1 _ _ _. rewrite E1. exact Hne.
 Qed.
 
 (** once the kept promise's entry has left the book its stored clearance stands; if that date has
